@@ -11,7 +11,7 @@ NODE_KINDS_RAW = ("tag_edit", "len_edit", "content_edit", "zero_len_primitive", 
 # interior family: the outer TLV stays complete and exact (C06)
 INTERIOR = ("inner_len_edit", "node_delete_reframed", "children_truncate_reframed", "zero_len_primitive_reframed",
             "content_truncate_reframed", "control_value_damage", "node_duplicate_reframed", "tag_edit_reframed",
-            "content_edit", "inner_len_shrink")
+            "content_edit", "inner_len_shrink", "envelope_emptied")
 PDU_KINDS = ("truncate_stream", "insert_garbage", "random_blob", "pdu_duplicate", "pdu_reorder", "deep_nest", "byz_message")
 
 PAGED_OID = b"1.2.840.113556.1.4.319"
@@ -136,12 +136,16 @@ def choose(rng, pdu, family):
         i = rng.choice(cand)
         f.update(node=i, keep=rng.randrange(order[i].ln))
     elif kind in ("children_truncate", "children_truncate_reframed"):
-        if not cons:
+        pool = cons + ([0] if order[0].children else [])
+        if not pool:
             return None
-        i = rng.choice(cons)
+        i = rng.choice(pool)
         f.update(node=i, keep=rng.randrange(len(order[i].children)))
     elif kind == "control_value_damage":
         f.update(how=rng.choice(["empty", "short", "absent", "not_sequence", "inner_overrun"]))
+    elif kind == "envelope_emptied":
+        # the outer SEQUENCE (or the protocolOp) keeps its tag but has no content at all, in any length form
+        f.update(node=rng.choice([0, 0, 2]) if len(order) > 2 else 0, how=rng.choice(["short", "long1", "long2", "long4", "keep"]))
     return f
 
 
@@ -273,6 +277,18 @@ def apply(pdu, f):
         if reframe:
             return splice(pdu, node, _hdr(node, len(content), pdu) + content, True)
         return pdu[:cut] + pdu[node.end :]
+    if base == "envelope_emptied":
+        if node is None or not node.constructed:
+            return None
+        ident_len = node.hl - _len_octets(pdu, node)
+        ident = pdu[node.off : node.off + ident_len]
+        how = f.get("how")
+        lenb = {"short": b"\x00", "long1": b"\x81\x00", "long2": b"\x82\x00\x00", "long4": b"\x84\x00\x00\x00\x00"}.get(how)
+        if lenb is None:
+            lenb = _hdr(node, 0, pdu)[ident_len:]
+        if node.parent is None:
+            return ident + lenb
+        return splice(pdu, node, ident + lenb, True)
     if base == "control_value_damage":
         v = _find_paged_value(pdu, order)
         if v is None:
